@@ -10,7 +10,7 @@ from . import phylo
 
 
 def random_dates(rng, n, mode=None):
-    mode = mode or str(rng.choice(["iso", "ages", "calendar", "ties", "ties-calendar"]))
+    mode = mode or str(rng.choice(["iso", "ages", "calendar", "ties", "ties-calendar", "negative"]))
     if mode == "iso":
         v = np.zeros(n)
     elif mode == "ages":
@@ -18,6 +18,11 @@ def random_dates(rng, n, mode=None):
         v[int(rng.integers(n))] = 0.0
     elif mode == "calendar":
         v = 1990 + rng.uniform(0, 20, n)
+    elif mode == "negative":
+        # forward-running dates relative to a reference day / the last sample, BCE years: all <= 0 (the latest one 0 or below)
+        v = -rng.uniform(0.1, 5, n)
+        if rng.random() < 0.6:
+            v[int(rng.integers(n))] = 0.0
     elif mode == "ties":
         v = rng.choice([0.0, 1.0, 2.5], n)
         v[int(rng.integers(n))] = 0.0
